@@ -132,6 +132,29 @@ pub fn r_events(evs: &[Event]) -> String {
     if evs.is_empty() { "<none>".into() } else { evs.iter().map(r_event).collect::<Vec<_>>().join(" | ") }
 }
 
+/// `build_ast` result (mirrors `renderAst` of lean/CookModel/Driver/Tie.lean): blocks, items rendered like the
+/// events they were built from, and the report
+pub fn r_ast(res: &cooklang::error::PassResult<cooklang::ast::Ast>) -> String {
+    use cooklang::parser::{Block, Item};
+    let item = |i: &Item| match i {
+        Item::Text(t) => r_event(&Event::Text(t.clone())),
+        Item::Ingredient(c) => r_event(&Event::Ingredient((**c).clone())),
+        Item::Cookware(c) => r_event(&Event::Cookware((**c).clone())),
+        Item::Timer(c) => r_event(&Event::Timer((**c).clone())),
+    };
+    let blocks: Vec<String> = match res.output() {
+        None => return "NOOUT".into(),
+        Some(ast) => ast.blocks.iter().map(|b| match b {
+            Block::FrontMatter(t) => format!("FM {}", r_text(t)),
+            Block::Metadata { key, value } => format!("MD {} {}", r_text(key), r_text(value)),
+            Block::Section { name } => format!("SEC {}", r_opt(name.as_ref(), r_text)),
+            Block::Step { items } => format!("STEP{{{}}}", items.iter().map(item).collect::<Vec<_>>().join(" || ")),
+            Block::TextBlock(ts) => format!("TEXTBLOCK{{{}}}", ts.iter().map(r_text).collect::<Vec<_>>().join(" || ")),
+        }).collect(),
+    };
+    format!("blocks=[{}] report=[{}]", blocks.join(" | "), res.report().iter().map(r_diag_full).collect::<Vec<_>>().join(" "))
+}
+
 pub fn sev_stage(d: &SourceDiag) -> (&'static str, &'static str) {
     (match d.severity { Severity::Error => "E", Severity::Warning => "W" }, match d.stage { Stage::Parse => "P", Stage::Analysis => "A" })
 }
